@@ -14,7 +14,7 @@ import sym
 
 PANIC_CALLS = ("unwrap", "expect", "unwrap_err", "expect_err")
 INDEX_CALLS = ("index", "index_mut")
-SPLIT_CALLS = ("split_at", "split_at_mut", "split_off", "copy_from_slice", "swap_remove", "remove", "drain", "split_first", "split_last")
+SPLIT_CALLS = ("split_at", "split_at_mut", "split_off", "copy_from_slice", "swap_remove", "remove", "drain")  # split_first / split_last return Option and never panic
 SEARCH = ("memchr", "memchr2", "memchr3", "memrchr", "position", "rposition", "find", "rfind", "next", "name_len", "iter_position", "enumerate")
 
 
@@ -160,6 +160,9 @@ def search_origin(t):
                     it = strip_wrappers(it[3][0])
                 if it[0] == "call" and name_is(it[2], "memchr_iter", "memchr2_iter", "memchr3_iter"):
                     return (base_slice(it[3][-1]), 0)
+                # `for (i, x) in s.iter().enumerate()`: the index component of an item is a position in s
+                if it[0] == "call" and name_is(it[2], "enumerate") and fields_of(t)[-1:] == ("0",) and len([x for x in t[2] if isinstance(x, tuple) and x[0] == "f"]) >= 2:
+                    return (base_slice(it[3][0]), 0)
                 return None
             if name_is(inner[2], "memchr", "memrchr"):
                 return (base_slice(inner[3][1]), 0)
@@ -259,6 +262,11 @@ def closure_sites(ctx, K):
                     continue
                 seen.add((e[1], str(e[2])))
                 nm = sym.short(e[2]).split("::")[-1] if isinstance(e[2], str) else "?"
+                if nm in ("map", "map_or", "and_then", "map_or_else", "filter", "is_some_and") and ("option::Option" in str(e[2]) or "result::Result" in str(e[2])):
+                    # closure applied to the payload of an Option / Result: the parameter is that payload
+                    o = search_origin(("pl", strip_wrappers(e[3][0]), (("d", 1, "Some"), ("f", 0, "0", "std::option::Option"))))
+                    out.append((nm, None if o is None else (o[0], o[1]), strip_wrappers(cl[0])[2]))
+                    continue
                 if nm not in ITEM_ADAPTORS or "Iterator" not in str(e[2]):
                     ok = False
                     continue
@@ -267,7 +275,7 @@ def closure_sites(ctx, K):
                     it = strip_wrappers(it[4])
                 while it[0] == "call" and name_is(it[2], "into_iter", "by_ref"):
                     it = strip_wrappers(it[3][0])
-                org = base_slice(it[3][-1]) if it[0] == "call" and name_is(it[2], "memchr_iter", "memchr2_iter", "memchr3_iter") else None
+                org = (base_slice(it[3][-1]), 0) if it[0] == "call" and name_is(it[2], "memchr_iter", "memchr2_iter", "memchr3_iter") else None
                 out.append((nm, org, strip_wrappers(cl[0])[2]))
     _CLOSURE_CTX[key] = out if ok and out else None
     return _CLOSURE_CTX[key]
@@ -281,8 +289,9 @@ def closure_context_arg(ctx, K, site, p, i, e):
         return None
     base = strip_wrappers(e[3][0])
     rng = strip_wrappers(e[3][1])
-    if rng[0] != "agg" or rng[2] not in ("RangeTo", "RangeFrom"):
+    if rng[0] != "agg" or rng[2] not in ("RangeTo", "RangeFrom", "RangeToInclusive"):
         return None
+    need = 0 if rng[2] == "RangeToInclusive" else 1   # `..=p` needs p < len, `..p` / `p..` need p <= len
     bound = strip_wrappers(rng[3][0])
     # the bound is the closure's own parameter (argument 2, possibly a reference pattern)
     is_param = bound[0] == "arg" and bound[1] == 2 or (bound[0] == "pl" and strip_wrappers(bound[1])[0] == "arg" and strip_wrappers(bound[1])[1] == 2 and all(x == "*" for x in bound[2]))
@@ -298,9 +307,9 @@ def closure_context_arg(ctx, K, site, p, i, e):
         return None
     k = fs[0][1]
     for nm, org, ops in cs:
-        if org is None or k >= len(ops) or not same_slice(base_slice(ops[k]), org):
+        if org is None or k >= len(ops) or not same_slice(base_slice(ops[k]), org[0]) or org[1] > need:
             return None
-    return "closure parameter is an item of a search iterator over the captured slice (every use of the closure: %s)" % sorted({c[0] for c in cs})
+    return "closure parameter is a position found in the captured slice (every use of the closure: %s)" % sorted({c[0] for c in cs})
 
 
 def describe_event(e):
@@ -351,6 +360,14 @@ def discharge(body, site, p, i, e):
 def same_slice(a, b):
     if a == b:
         return True
+    # de::simple_type::Content::{Input, Slice}(s).as_str() is s itself (for Owned(s, offset) it is &s[offset..], which is
+    # why that variant is excluded): a position found in `content.as_str()` is a position in `content as Input.0`
+    for x, y in ((a, b), (b, a)):
+        y0 = strip_wrappers(y)
+        if y0[0] == "pl" and strip_wrappers(y0[1]) == strip_wrappers(x):
+            pr = [e for e in y0[2] if e != "*"]
+            if len(pr) == 2 and pr[0][0] == "d" and pr[0][2] in ("Input", "Slice") and pr[1][0] == "f" and pr[1][1] == 0:
+                return True
     norm = lambda t: re.sub(r"[*&() ]", "", sym.show(t))
     return norm(a) == norm(b)
 
@@ -604,7 +621,7 @@ READER_EXEMPT = {
     "NamespaceEntry::prefix|index-range|index(&ns_buffer, Range::Range(self.start, (self.start Add self.prefix_len)))": "entries are recorded by push()/default() from buffer.len() before appending exactly prefix and value (C05 R3 push); pop() truncates buffer and bindings together",
     "NamespaceEntry::namespace|index-range|index(&buffer, Range::Range((self.start Add self.prefix_len)": "same invariant of (start, prefix_len, value_len) against the shared buffer",
     "NamespaceResolver::pop|assert:Overflow:Sub|self.nesting_level - 1": "i32 level: underflow needs 2^31 pops without a push",
-    "Iterator>::next|index-range|index(&(*self.resolver).bindings, RangeFrom::RangeFrom((self.bindings_cursor Add 1)))": "cursor was just used by get(cursor) == Some, so cursor + 1 <= len",
+    "Iterator>::next|index-range|index(&(*self.resolver).bindings, RangeFrom::RangeFrom(..self.bindings_cursor": "cursor <= len always (it starts at 2 = the reserved entries, which are never removed, and only advances while get(cursor) is Some), and where cursor + 1 is used cursor was just used by get(cursor) == Some",
     "Iterator>::size_hint|assert:Overflow:Sub|Vec::len(&(*self.resolver).bindings) - self.bindings_cursor": "cursor starts at 2 = number of reserved entries that are never removed and only advances while get(cursor) is Some",
     # ---- reader
     "async_tokio::poll_read|assert:Overflow:Sub|ReadBuf::remaining(&buf) - ReadBuf::remaining(&buf)": "AsyncRead::poll_read only fills the buffer: remaining after <= remaining before (tokio contract)",
